@@ -29,7 +29,7 @@ ASSUMPTIONS = ["decorator closures expose the guard specifications (closure intr
                "mpmath.findroot from the returned value finds the root the function aimed at",
                "vf/data/c02_exceptions.json lists the functions documented to return a magnitude or a rounded-up integer"]
 N = {"quick": 3, "thorough": 12}
-MIN_REACH = {"quick": {"vector_roundtrips": 60, "functions_covered": 400, "calls_compared": 1000, "respelled": 800, "ceil_near_integer": 5},
+MIN_REACH = {"quick": {"vector_roundtrips": 60, "law_roundtrips": 80, "functions_covered": 400, "calls_compared": 1000, "respelled": 800, "ceil_near_integer": 5},
              "thorough": {"functions_covered": 400, "calls_compared": 4000}}
 SHARD_TIMEOUT = {"quick": 900, "thorough": 3300}
 mpmath.mp.dps = 50
@@ -321,10 +321,44 @@ def check_function(r, rec, mod, fname, func, info, tuples, tier, exceptions):
             break
     if exc and exc.get("op") == "ceil":
         ceil_near_integer(r, rec, func, info, key)
+    if exc and exc.get("op") == "abs" and exc.get("signs", True):
+        abs_with_signs(r, rec, func, info, key)
     if held:
         rec.hit("functions_covered")
     elif refused:
         rec.inconc("function refuses every drawn tuple", {"function": key})
+
+
+def abs_with_signs(r, rec, func, info, key):
+    """a function documented to return a magnitude: every sign pattern of the arguments must give |solution|"""
+    import itertools
+    import sympy
+    from symplyphysics import Quantity
+    kwargs, desc = make_args(r, info, False)
+    names = list(kwargs)
+    for signs in itertools.product((1, -1), repeat=len(names)):
+        if all(s_ == 1 for s_ in signs):
+            continue
+        kw = {}
+        for n_, s_ in zip(names, signs):
+            q = kwargs[n_]
+            kw[n_] = Quantity(s_ * q) if s_ == -1 else q
+        case = {"function": key, "arguments": desc, "signs": list(signs)}
+        try:
+            with harness.Watchdog(60):
+                res = func(**kw)
+            rv = result_value(res)
+            rstar = solve_reference(info, kw, rv)
+            if not rel_close(rv, abs(rstar), mpmath.mpf("1e-6")):
+                rstar = solve_reference(info, kw, -rv)
+        except Exception:  # pylint: disable=broad-except
+            rec.add("abs_sign_pattern_refused_or_unsolved")
+            continue
+        rec.hit("abs_sign_patterns")
+        rec.case((key, "signs", signs))
+        if not rel_close(rv, abs(rstar), mpmath.mpf("1e-6")):
+            rec.violation(f"not-a-magnitude:{key}", f"{key} with argument signs {signs} returned {mpmath.nstr(rv, 12)} but the law is solved by {mpmath.nstr(rstar, 12)} (expected its magnitude)", case)
+            return
 
 
 def ceil_near_integer(r, rec, func, info, key):
@@ -462,6 +496,47 @@ def vector_pairs_work(spec, rec):
     for m in sorted(table - found):
         rec.inconc("reviewed vector pair no longer offered by the module", {"pair": list(m)})
     rec.extra["vector_pairs"] = len(found)
+    # law-level inverse forms (plain Vector functions *_law / *_definition): table derived on the unchanged tree
+    from symplyphysics import Vector
+    with open(os.path.join(harness.HOME, "vf", "data", "c02_law_pairs.json")) as f:
+        law_pairs = json.load(f)["law_pairs"]
+    for lp in law_pairs:
+        short = lp["module"].split("symplyphysics.")[-1]
+        try:
+            mod = catalogue.import_module(lp["module"])
+            f_, g_ = getattr(mod, lp["f"]), getattr(mod, lp["g"])
+        except Exception:  # pylint: disable=broad-except
+            rec.inconc("reviewed law pair no longer offered by the module", {"pair": [lp["module"], lp["f"], lp["g"]]})
+            continue
+        nf = len(inspect.signature(f_).parameters)
+        for t in range(max(2, spec["draws"] // 2)):
+            lens = [r.choice([3, 3, 2, 1]) for _ in range(nf)]
+            if t == 0 and nf >= 2:
+                lens = [1] + [3] * (nf - 1)   # shorter operand on the left
+            xs = [Vector([sympy.Rational(r.randint(-40, 40) or 7, r.randint(1, 6)) for _ in range(n)]) for n in lens]
+            case = {"module": lp["module"], "f": lp["f"], "g": lp["g"], "vectors": [[str(c) for c in x.components] for x in xs]}
+            try:
+                with harness.Watchdog(60):
+                    y = f_(*xs)
+                    args = [None] * nf
+                    it = iter(lp["others"])
+                    for j in range(nf):
+                        args[j] = y if j == lp["y_slot"] else xs[next(it)]
+                    z = g_(*args)
+            except TimeoutError:
+                rec.inconc("watchdog in law pair")
+                continue
+            except Exception as e:  # pylint: disable=broad-except
+                rec.violation(f"law-pair-raises:{short}.{lp['f']}->{lp['g']}", f"{short}: {lp['g']}(.., {lp['f']}(..)) raised {type(e).__name__}: {str(e)[:100]}", case)
+                break
+            want = xs[lp["left_out"]]
+            cz = list(z.components) + [0] * (3 - len(z.components))
+            cw = list(want.components) + [0] * (3 - len(want.components))
+            rec.hit("law_roundtrips")
+            rec.case(("law-pair", short, lp["f"], lp["g"], t))
+            if not all(sympy.simplify(a_ - b_) == 0 for a_, b_ in zip(cz, cw)):
+                rec.violation(f"law-pair-not-inverse:{short}.{lp['f']}->{lp['g']}", f"{short}: {lp['g']} applied to {lp['f']}(..) gives {[str(c) for c in cz]}, expected {[str(c) for c in cw]}", case)
+                break
 
 
 def work(spec, rec):
